@@ -179,9 +179,14 @@ func init() {
 				}
 				us = append(us, shardUnits(n, b, 8)...)
 			}
+			us = append(us, raceUnits(c04Scenarios(), nil)...)
 			return us
 		},
+		ExeFor: raceExe,
 		Run: func(unit string, env *fw.Env) *fw.Result {
+			if strings.HasPrefix(unit, "race/") {
+				return raceRun("C04", c04Scenarios(), unit, env)
+			}
 			sp := parseSched(unit)
 			for _, sc := range c04Scenarios() {
 				if sc.Name == sp.Name {
